@@ -7,7 +7,7 @@
 From Coq Require Import NArith Bool List.
 From RS.Gen Require Import Prelude GenConsts.
 From RS.Model Require Import Field Sched Codec Machine Admissible.
-From RS.Proofs Require Import MachineFacts OneShot.
+From RS.Proofs Require Import MachineFacts OneShot OneShotEnc.
 Import ListNotations.
 Local Open Scope N_scope.
 
@@ -68,6 +68,12 @@ Theorem C10_decode_truthful : forall junk ep K R orig rec e,
   oneshot_decode junk ep K R orig rec = RError e -> In e (adm_onedec K R orig rec).
 Proof. exact oneshot_decode_truthful. Qed.
 Print Assumptions C10_decode_truthful.
+
+(* ... and the same for the one-shot encode() *)
+Theorem C10_encode_truthful : forall junk ep K R shards e,
+  oneshot_encode junk ep K R shards = RError e -> In e (adm_oneenc K R shards).
+Proof. exact oneshot_encode_truthful. Qed.
+Print Assumptions C10_encode_truthful.
 
 Example C10_no_recovery :
   let j := fun _ _ _ : N => 0 in
